@@ -1,3 +1,262 @@
-import KoordVerif.Model.C05
+import KoordVerif.Proofs.C05Ledger
+import KoordVerif.Proofs.C05Index
+/-
+C05 — reservations are never over-allocated and only serve their owners.
+
+Model: KoordVerif/Model/C05.lean (reservation ledger, restricted fit, allocate-once gate, owner matching,
+the cache with its three per-node indexes, the event-handler glue).  `Op`/`step`/`run`/`Admissible` are in
+Proofs/C05Base.lean.  All theorems quantify over ALL histories / inputs of that model; amounts are unbounded
+integers over an arbitrary index set of dimensions (only the loops of the code are bounded by `dims`).
+
+Side conditions (each is checked on the generated inputs by the harness, and is what the callers guarantee):
+* `LedgerPre`: pods handed to the cache have non-negative requests (API validation); a pod whose request
+  map is empty requests 0 everywhere.
+* `IndexPre`: a reservation's node name is the same in every event once it is in the cache, and the raw
+  `updateReservation` is only called with a scheduled reservation (the handlers gate on IsReservationActive).
+-/
 namespace KoordVerif.C05
+
+/-! ## 1. ledger -/
+
+/-- Allocated = Σ over the currently assigned pods of their requests in the reserved dimensions, after ANY
+    history of reservation add/update/delete and pod assume/forget/add/update/delete (raw or through the
+    handlers), including updates that change the reserved dimensions while pods are assigned. -/
+theorem ledger_exact (ops : List Op) (h : Admissible LedgerPre Cache.empty ops) :
+    ∀ r ∈ (run Cache.empty ops).infos, ∀ d, r.allocated d = sumReq r.names r.assigned d := by
+  have := run_preserves LedgerPre LedgerInv ledger_step ops Cache.empty
+    (by intro r hr; simp [Cache.empty] at hr) h
+  intro r hr d
+  exact (this r hr).1 d
+
+/-- the same from any state whose ledgers are exact (the invariant is inductive) -/
+theorem ledger_exact_step (c : Cache) (op : Op) (h : LedgerInv c) (hp : LedgerPre c op) : LedgerInv (step c op) :=
+  ledger_step c op h hp
+
+/-- nothing is driven negative and no removal is absorbed by the clamp of SubtractWithNonNegativeResult -/
+theorem allocated_nonneg (ops : List Op) (h : Admissible LedgerPre Cache.empty ops) :
+    ∀ r ∈ (run Cache.empty ops).infos, ∀ d, 0 ≤ r.allocated d := by
+  have := run_preserves LedgerPre LedgerInv ledger_step ops Cache.empty
+    (by intro r hr; simp [Cache.empty] at hr) h
+  intro r hr d
+  rw [(this r hr).1 d]
+  exact sumReq_nonneg _ _ _ (fun p hp => ((this r hr).2.2 p hp).1)
+
+/-- the pre-repair behaviour of UpdateReservation (mask the old sum only) -/
+def updInfoRemask (r : RInfo) (o : RObj) : RInfo :=
+  { updInfo r o with allocated := vmask (namesOf o) r.allocated }
+
+def cexPod : Pod := { uid := 1, empty := false, req := fun _ => 5 }
+def cexInfo : RInfo :=
+  { uid := 1, node := 1, phase := 1, once := false, term := false, policy := 2, parseErr := false,
+    alloc := fun _ => 9, maxPods := -1, reserved := vzero, names := fun d => d == 0,
+    allocated := fun d => if d == 0 then 5 else 0, assigned := [cexPod] }
+def cexObj : RObj :=
+  { uid := 1, node := 1, phase := 1, once := false, term := false, policy := 2, optKind := 0, opt := fun _ => false,
+    tmpl := fun _ => 9, tmplHas := fun _ => true, st := fun _ => 9, stHas := fun _ => true, maxPods := -1,
+    reserved := vzero, ownBad := false }
+
+/-- why the recomputation is needed: with mask-only, growing the reserved dimensions (here: dimension 1
+    becomes reserved) leaves Allocated short of what the assigned pod requests (0 ≠ 5).  This is the defect
+    found on the snapshot (fingerprint C05:ledger-drift), repaired in /repo. -/
+theorem remask_only_update_drifts_counterexample :
+    cexInfo.allocated 0 = sumReq cexInfo.names cexInfo.assigned 0 ∧
+    cexInfo.allocated 1 = sumReq cexInfo.names cexInfo.assigned 1 ∧
+    ¬ ((updInfoRemask cexInfo cexObj).allocated 1
+        = sumReq (updInfoRemask cexInfo cexObj).names (updInfoRemask cexInfo cexObj).assigned 1) := by
+  decide
+
+/-! ## 2. restricted fit -/
+
+theorem fitOK_cons (b : Bool) (t : List Bool) : fitOK (b :: t) = true ↔ b = false ∧ fitOK t = true := by
+  simp [fitOK]
+
+/-- a Restricted reservation lets a pod in only if, in every reserved dimension the pod requests,
+    (allocated − preemptible)⁺ + request ≤ allocatable − inner reserved -/
+theorem restricted_fit_sound (r : RInfo) (q pre : Vec) (prePods : Int)
+    (hfit : fitOK (fitsReservation r q pre prePods) = true) :
+    ∀ d, d < dims → r.names d = true → q d ≠ 0 →
+      (if r.allocated d - pre d < 0 then 0 else r.allocated d - pre d) + q d ≤ r.alloc d - r.reserved d := by
+  intro d hd hn hq
+  unfold fitsReservation at hfit
+  rw [fitOK_cons] at hfit
+  have h2 := hfit.2
+  simp only [fitOK, List.all_map, List.all_eq_true, List.mem_range] at h2
+  have := h2 d hd
+  simp [hn, hq] at this
+  omega
+
+/-- … and only if the reserved number of pods (when declared) is not exceeded -/
+theorem restricted_fit_pods (r : RInfo) (q pre : Vec) (prePods : Int)
+    (hfit : fitOK (fitsReservation r q pre prePods) = true) (hm : 0 ≤ r.maxPods) :
+    ((r.assigned.length : Int) - prePods) + 1 ≤ r.maxPods := by
+  unfold fitsReservation at hfit
+  rw [fitOK_cons] at hfit
+  have h1 := hfit.1
+  simp [hm] at h1
+  omega
+
+/-- the policy switch of fitsNodeAndReservation really applies the check to Restricted reservations -/
+theorem restricted_policy_checked (r : RInfo) (q pre : Vec) (prePods : Int) (hp : r.policy = 2) :
+    fitsPolicy r q pre prePods = fitsReservation r q pre prePods := by
+  simp [fitsPolicy, hp]
+
+/-- with an exact ledger: the pods already assigned plus the admitted pod stay within what is reserved -/
+theorem never_overallocated (r : RInfo) (q : Vec) (hex : Exact r)
+    (hfit : fitOK (fitsReservation r q vzero 0) = true) :
+    ∀ d, d < dims → r.names d = true → q d ≠ 0 →
+      sumReq r.names r.assigned d + q d ≤ r.alloc d - r.reserved d := by
+  intro d hd hn hq
+  have := restricted_fit_sound r q vzero 0 hfit d hd hn hq
+  rw [← hex d]
+  simp only [vzero] at this
+  rcases Int.lt_or_ge (r.allocated d - 0) 0 with hc | hc
+  · rw [if_pos hc] at this; omega
+  · rw [if_neg (by omega)] at this; omega
+
+/-- … and after the admitted pod is assigned, Allocated itself is within the reservation in those dimensions -/
+theorem admit_keeps_within (r : RInfo) (p : Pod) (hnew : hasPod r.assigned p.uid = false)
+    (hfit : fitOK (fitsReservation r p.req vzero 0) = true) :
+    ∀ d, d < dims → r.names d = true → p.req d ≠ 0 →
+      (addAssigned r p).allocated d ≤ r.alloc d - r.reserved d := by
+  intro d hd hn hq
+  have := restricted_fit_sound r p.req vzero 0 hfit d hd hn hq
+  simp only [addAssigned, hnew, Bool.false_eq_true, if_false, vadd, vmask, hn, if_true]
+  simp only [vzero] at this
+  rcases Int.lt_or_ge (r.allocated d - 0) 0 with hc | hc
+  · rw [if_pos hc] at this; omega
+  · rw [if_neg (by omega)] at this; omega
+
+/-! ## 3. allocate-once -/
+
+/-- an allocate-once reservation with an assigned pod is not matchable … -/
+theorem allocate_once_not_matchable (r : RInfo) (h1 : r.once = true) (h2 : r.assigned ≠ []) :
+    isMatchable r = false := by
+  have : r.assigned.length > 0 := List.length_pos_iff.mpr h2
+  simp [isMatchable, h1, this]
+
+/-- … and FilterNominateReservation rejects it -/
+theorem allocate_once_gate (r : RInfo) (h1 : r.once = true) (h2 : r.assigned ≠ []) : nominateGate r = true := by
+  have : r.assigned.length > 0 := List.length_pos_iff.mpr h2
+  simp [nominateGate, h1, this]
+
+/-- the refresh block run by every reservation event drops a non-matchable reservation (in particular an
+    allocate-once one that has a pod) from both look-up indexes -/
+theorem refresh_drops_unmatchable (c : Cache) (r : RInfo) (n u : Nat) (h : isMatchable r = false) :
+    (n, u) ∉ (refreshIdx c r n u).matchable ∧ (n, u) ∉ (refreshIdx c r n u).allocIdx := by
+  simp [refreshIdx, h, mem_idxDel]
+
+/-! ## 4. owners -/
+
+/-- matched and not ignored ⇒ the reservation's owner specification parsed and one of its entries is
+    satisfied by the pod in all three parts (object reference, controller reference, label selector) -/
+theorem match_implies_owner (x : MatchCtx) (perr : Bool) (ms : List OwnerEval)
+    (h : checkMatched x (matchOwners perr ms) = true) :
+    x.ignored = true ∨ (perr = false ∧ ∃ m ∈ ms, m.obj = true ∧ m.ctrl = true ∧ m.lbl = true) := by
+  by_cases hi : x.ignored = true
+  · exact Or.inl hi
+  · right
+    have ho : matchOwners perr ms = true := by
+      cases hmo : matchOwners perr ms with
+      | true => rfl
+      | false => simp [checkMatched, hi, hmo] at h
+    simp [matchOwners, matchOwnersList] at ho
+    obtain ⟨hp, m, hm, h1⟩ := ho
+    exact ⟨hp, m, hm, h1.1.1, h1.1.2, h1.2⟩
+
+/-- `Owners = nil` matches nothing; an owner specification that does not parse matches nothing -/
+theorem no_owner_matches_nothing (perr : Bool) (ms : List OwnerEval) (h : ms = [] ∨ perr = true) :
+    matchOwners perr ms = false := by
+  rcases h with h | h <;> simp [matchOwners, matchOwnersList, h]
+
+/-- a name-pinned or affinity-selected pod is matched only if the exact-match spec holds too -/
+theorem match_implies_exact (x : MatchCtx) (ok : Bool) (h : checkMatched x ok = true) (hi : x.ignored = false) :
+    ok = true ∧ x.exact = true := by
+  cases ok <;> cases hn : x.hasName <;> cases hm : x.nameMatch <;> cases he : x.exact <;>
+    cases hu : x.unschedulable <;> cases ht : x.tolerateUnsch <;> cases hb : x.taintBad <;> cases ha : x.affinity <;>
+    simp [checkMatched, hi, hn, hm, he, hu, ht, hb, ha] at h ⊢
+
+/-! ## 5. per-node indexes -/
+
+/-- after ANY admissible history: reservationsOnNode is exactly {live reservations, by node}; matchableOnNode
+    and allocatedOnNode only reference live reservations, under their own node; every live reservation has a node -/
+theorem index_inv (ops : List Op) (h : Admissible IndexPre Cache.empty ops) : IndexInv (run Cache.empty ops) :=
+  run_preserves IndexPre IndexInv index_step ops Cache.empty index_empty h
+
+theorem index_inv_step (c : Cache) (op : Op) (h : IndexInv c) (hp : IndexPre c op) : IndexInv (step c op) :=
+  index_step c op h hp
+
+/-- no index references a reservation that is no longer in the cache … -/
+theorem index_no_dangling (c : Cache) (h : IndexInv c) :
+    ∀ p, p ∈ c.onNode ∨ p ∈ c.matchable ∨ p ∈ c.allocIdx → (findInfo c p.2).isSome = true := by
+  intro p hp
+  have hl : LiveL c.infos p.1 p.2 := by
+    rcases hp with hp | hp | hp
+    · exact (h.on_iff _ _).mp hp
+    · exact h.mt_live _ _ hp
+    · exact h.al_live _ _ hp
+  obtain ⟨r, hr, hu, _⟩ := hl
+  simp only [findInfo, List.find?_isSome]
+  exact ⟨r, hr, by simp [hu]⟩
+
+/-- … so ForEachMatchableReservationOnNode never hands out a nil ReservationInfo (model: uid 0 = nil) … -/
+theorem forEach_never_nil (c : Cache) (h : IndexInv c) (n : Nat) :
+    ∀ u ∈ forEachMatchable c n, ∃ r ∈ c.infos, r.uid = u ∧ r.node = n := by
+  intro u hu
+  simp only [forEachMatchable, List.mem_map, List.mem_filter] at hu
+  obtain ⟨p, ⟨hp, hpn⟩, hpu⟩ := hu
+  have hs := index_no_dangling c h p (Or.inr (Or.inl hp))
+  have hl := h.mt_live p.1 p.2 hp
+  cases hf : findInfo c p.2 with
+  | none => simp [hf] at hs
+  | some r0 =>
+    simp [hf] at hpu
+    obtain ⟨r, hr, hru, hrn⟩ := hl
+    refine ⟨r, hr, by omega, ?_⟩
+    simp at hpn; omega
+
+/-- … and every live reservation is listed under the node it is placed on -/
+theorem index_lists_every_live (c : Cache) (h : IndexInv c) :
+    ∀ r ∈ c.infos, r.node ≠ 0 ∧ (r.node, r.uid) ∈ c.onNode :=
+  fun r hr => ⟨h.node_ne r hr, (h.on_iff _ _).mpr ⟨r, hr, rfl, rfl⟩⟩
+
+/-! ## non-vacuity: the hypotheses hold on a non-trivial history -/
+
+def exObj (names01 : Bool) : RObj :=
+  { uid := 1, node := 2, phase := 1, once := false, term := false, policy := 2,
+    optKind := 1, opt := fun d => d == 0 || (names01 && d == 1),
+    tmpl := fun _ => 900, tmplHas := fun _ => true, st := fun _ => 900, stHas := fun _ => true, maxPods := -1,
+    reserved := vzero, ownBad := false }
+def exPod : Pod := { uid := 7, empty := false, req := fun d => if d == 0 then 137 else 41 }
+
+/-- add a Restricted reservation reserving only dim 0, assume a pod, GROW the reserved dimensions, forget the pod -/
+def exOps : List Op := [.eadd (exObj false), .padd 1 [exPod], .eupd (exObj true), .pdel 1 [7], .rdel 1 2]
+
+example : Admissible LedgerPre Cache.empty exOps := by
+  refine ⟨trivial, ?_, trivial, trivial, trivial, trivial⟩
+  intro p hp
+  simp at hp; subst hp
+  exact ⟨by intro d; simp only [exPod]; split <;> omega, by intro h; simp [exPod] at h⟩
+
+example : Admissible IndexPre Cache.empty exOps := by
+  refine ⟨?_, trivial, ?_, trivial, ?_, trivial⟩ <;> decide
+
+-- after the growing update the ledger shows the pod in BOTH reserved dimensions (137, 41), then 0 again
+example : ((run Cache.empty (exOps.take 3)).infos.map (fun r => (r.allocated 0, r.allocated 1, r.allocated 2)))
+    = [(137, 41, 0)] := by decide
+example : ((run Cache.empty (exOps.take 4)).infos.map (fun r => (r.allocated 0, r.allocated 1, r.assigned.length)))
+    = [(0, 0, 0)] := by decide
+example : (run Cache.empty (exOps.take 3)).allocIdx = [(2, 1)] ∧ (run Cache.empty exOps).onNode = [] := by decide
+
+-- the restricted fit hypothesis is satisfiable and tight: 763 fits next to 137 in a 900 reservation, 764 does not
+example : (run Cache.empty (exOps.take 3)).infos.map
+    (fun r => fitOK (fitsReservation r (fun d => if d == 0 then 763 else 0) vzero 0)) = [true] := by decide
+example : (run Cache.empty (exOps.take 3)).infos.map
+    (fun r => fitOK (fitsReservation r (fun d => if d == 0 then 764 else 0) vzero 0)) = [false] := by decide
+
+def exCtx : MatchCtx :=
+  { ignored := false, hasName := false, nameMatch := false, exact := true, unschedulable := false,
+    tolerateUnsch := false, taintBad := false, affinity := true }
+example : checkMatched exCtx (matchOwners false [{ obj := true, ctrl := true, lbl := true }]) = true := by decide
+example : checkMatched exCtx (matchOwners false [{ obj := true, ctrl := false, lbl := true }]) = false := by decide
+
 end KoordVerif.C05
